@@ -157,9 +157,21 @@ class World:
         with wt.lock_write():
             wt.set_root_id(bz.enc(tm.ROOT_ID))
         self.n = 0
+        self.keep = False
+        self._kept = None
 
     def wt(self):
         return bz.open_tree(self.path)
+
+    def ctree(self):
+        """The tree object edits and commits go through: a fresh one each
+        time, or (keep) one long-lived object for the whole case, so that
+        whatever it caches has to survive its own commits."""
+        if not self.keep:
+            return self.wt()
+        if self._kept is None:
+            self._kept = self.wt()
+        return self._kept
 
     def disk(self, fid):
         return os.path.join(self.path, tm.path_of(self.model, fid))
@@ -305,7 +317,14 @@ def classify(basis, work, sel, exclude, wp):
         must = {f for f in ids
                 if (bp.get(f) is not None and inside(sel, bp[f])) or
                 (wp.get(f) is not None and inside(sel, wp[f]))}
-        return must, closure(basis, work, must, sel, (), wp)
+        may = closure(basis, work, must, sel, (), wp)
+        if exclude:
+            # both: the exclusion filters what the selection reports - an id
+            # with a path (old or new) inside the exclude list keeps its
+            # basis entry, whatever class the selection put it in
+            out = excluded_ids(basis, wp, exclude)
+            return must - out, may - out
+        return must, may
     if exclude:
         must, mixed = set(), set()
         for f in ids:
@@ -317,6 +336,13 @@ def classify(basis, work, sel, exclude, wp):
                 mixed.add(f)
         return must, None
     return ids, ids
+
+
+def excluded_ids(basis, wp, exclude):
+    bp = paths_of(basis)
+    return {f for f in set(basis) | set(wp)
+            if any(p is not None and inside(exclude, p)
+                   for p in (bp.get(f), wp.get(f)))}
 
 
 # ------------------------------------------------------------------ run
@@ -346,7 +372,7 @@ def build_world(case, env, lightweight=False):
 
 
 def do_edits(w, edits):
-    wt = w.wt()
+    wt = w.ctree()
     with wt.lock_write():
         for op in edits:
             w.apply(wt, op)
@@ -361,6 +387,11 @@ def commit_kwargs(rnd_, n):
         kw["exclude"] = list(rnd_["exclude"])
     kw["allow_pointless"] = rnd_["allow_pointless"]
     kw["strict"] = rnd_["strict"]
+    if rnd_.get("verbose"):
+        # the reporting branch of Commit._filter_iter_changes
+        from breezy.commit import ReportCommitToLog
+        kw["reporter"] = ReportCommitToLog()
+        kw["verbose"] = True
     return kw
 
 
@@ -373,8 +404,9 @@ def check_commit(w, rnd_, n, labels):
     sel, exclude = rnd_["sel"], rnd_["exclude"]
     before = w.state()
     kw = commit_kwargs(rnd_, n)
-    ctx = {"sel": sel, "exclude": exclude, "round": n}
-    wt = w.wt()
+    ctx = {"sel": sel, "exclude": exclude, "round": n,
+           "long-lived-tree": w.keep}
+    wt = w.ctree()
     try:
         rid = wt.commit("c%d" % n, **kw)
     except refusals() as e:
@@ -384,7 +416,19 @@ def check_commit(w, rnd_, n, labels):
         labels.add("refused:" + type(e).__name__)
         return False
     except Exception as e:  # noqa: BLE001 - exclude lists can make the tree invalid
-        if exclude:
+        if exclude and sel is not None:
+            # the exclusion removed something the selection needs (a parent,
+            # a collision partner): refusing is legitimate
+            cut = classify(basis, work, sel, None, wpaths)[1] & \
+                excluded_ids(basis, wpaths, exclude)
+            if cut:
+                after = w.state()
+                check(after == before,
+                      "C01/failed-exclude-commit-changed-state",
+                      [ctx, type(e).__name__, sorted(cut)])
+                labels.add("exclude-impossible")
+                return False
+        elif exclude:
             must, _ = classify(basis, work, sel, exclude, wpaths)
             pred = {f: (work.get(f) if f in must else basis.get(f))
                     for f in set(basis) | set(work)}
@@ -418,6 +462,8 @@ def check_commit(w, rnd_, n, labels):
     must, may = classify(basis, work, sel, exclude, wpaths)
     ids = set(basis) | set(work) | set(new) | set(wpaths)
     forced = set()
+    cut_out = excluded_ids(basis, wpaths, exclude) \
+        if (exclude and sel is not None) else set()
     if may is None:
         # exclude list: decided exactly for every id
         for f in sorted(ids):
@@ -439,7 +485,9 @@ def check_commit(w, rnd_, n, labels):
                 if n_ != b_:
                     forced.add(f)
             else:
-                check(n_ == b_, "C01/unselected-id-changed", [ctx, f, b_, w_, n_])
+                check(n_ == b_, "C01/excluded-id-changed-by-selected-commit"
+                      if f in cut_out else "C01/unselected-id-changed",
+                      [ctx, f, b_, w_, n_])
     check(snap_valid(new), "C01/committed-tree-invalid", [ctx, new])
     try:
         after = w.state()
@@ -517,11 +565,16 @@ def check_commit(w, rnd_, n, labels):
         labels.add("forced-partner")
     if sel is None and not exclude and pend_ids:
         labels.add("full-commit")
+    if sel is not None and exclude and cut_out & pend_ids:
+        labels.add("selection+exclude")
+    if sel == [] and pend_ids:
+        labels.add("empty-selection")
     return True
 
 
 def run(case, env):
     w = build_world(case, env)
+    w.keep = bool(case.get("keep_tree"))
     labels = set()
     n = 0
     for rnd_ in case["rounds"]:
@@ -572,16 +625,24 @@ def run_fault(case, env):
         # recording run happens in the original and the faulty run in a restored
         # copy of it
         wt = w.wt()
-        with ft.session(mode="record") as c:
-            try:
-                wt.commit("c%d" % n, **kw)
-                recorded = True
-            except refusals():
-                recorded = False
-            except Exception as e:  # noqa: BLE001
-                if not type(e).__name__.startswith("InconsistentDelta"):
-                    raise
-                recorded = False     # see check_commit: unexpressible selection
+        # (recorded under the same locking regime as the faulty run, so that
+        # the operation numbers mean the same in both)
+        if fault.get("outer_lock"):
+            wt.lock_write()
+        try:
+            with ft.session(mode="record") as c:
+                try:
+                    wt.commit("c%d" % n, **kw)
+                    recorded = True
+                except refusals():
+                    recorded = False
+                except Exception as e:  # noqa: BLE001
+                    if not type(e).__name__.startswith("InconsistentDelta"):
+                        raise
+                    recorded = False  # see check_commit: unexpressible selection
+        finally:
+            if fault.get("outer_lock"):
+                wt.unlock()
         log = [x for x in c.log if "/repository/" in x[2] and
                "/repository/lock" not in x[2]]
     finally:
@@ -621,17 +682,65 @@ def run_fault(case, env):
                     raise Injected("read of working file")
                 return orig(*a, **kws)
             wt.get_file_with_stat = failing
-    with ft.session(**sess) as c:
-        try:
-            if "message_callback" in kw:
-                wt.commit(**kw)
-            else:
-                wt.commit("c%d" % n, **kw)
-        except (Injected, derr.TransportError, errors.BzrError) as e:
-            exc = e
-    fired = c.fired if point == "transport" else exc is not None
+        elif point == "changes":
+            # the k-th change the tree reports is never delivered
+            orig_ic = wt.iter_changes
+            k = fault["k"]
+
+            def failing_ic(*a, **kws):
+                for i, chg in enumerate(orig_ic(*a, **kws)):
+                    if i >= k % 3:
+                        raise Injected("iter_changes")
+                    yield chg
+            wt.iter_changes = failing_ic
+    # outer_lock: the caller holds its own write lock around the commit (as
+    # every command does), so nothing is cleaned up by an unlock between the
+    # failed commit and the next one
+    outer = bool(fault.get("outer_lock"))
+    followed_up = None
+    if outer:
+        wt.lock_write()
+    try:
+        with ft.session(**sess) as c:
+            try:
+                if "message_callback" in kw:
+                    wt.commit(**kw)
+                else:
+                    wt.commit("c%d" % n, **kw)
+            except (Injected, derr.TransportError, errors.BzrError) as e:
+                exc = e
+        fired = c.fired if point == "transport" else exc is not None
+        if outer and fired and exc is not None and strict_region and \
+                wt.branch.last_revision().decode() == before["tip"][1]:
+            for attr in ("get_file_with_stat", "iter_changes"):
+                wt.__dict__.pop(attr, None)
+            try:
+                followed_up = wt.commit(
+                    "after", rev_id=b"after-fault", timestamp=bz.T0 + 99,
+                    timezone=0, committer=bz.COMMITTER, allow_pointless=True)
+            except errors.BzrError as e:
+                check(False, "C01/commit-after-failed-commit-under-the-same-"
+                      "lock-refused", [fault, repr(exc)[:200], repr(e)[:300]])
+    finally:
+        if outer:
+            wt.unlock()
     after = w.state()
     ctx = {"fault": fault, "exc": repr(exc)[:200], "strict": strict_region}
+    if followed_up is not None:
+        # the failed commit left nothing, the second one is the only new thing
+        check(after["tip"] == [before["tip"][0] + 1, "after-fault"],
+              "C01/tip-wrong-after-failed-and-repeated-commit",
+              [ctx, before["tip"], after["tip"]])
+        check(after["revs"] == sorted(before["revs"] + ["after-fault"]),
+              "C01/failed-commit-left-a-revision", [ctx, after["revs"]])
+        check(isinstance(exc, (Injected, derr.TransportError)),
+              "C01/failure-masked-by-another-error", [ctx, repr(exc)[:300]])
+        new = snap_real(w.wt().branch.repository.revision_tree(followed_up))
+        work = snap_model(w.model, w.missing)
+        check(new == work, "C01/commit-after-failed-commit-differs-from-tree",
+              [ctx, {f: (new.get(f), work.get(f))
+                     for f in set(new) | set(work) if new.get(f) != work.get(f)}])
+        return ok("fault:%s+same-lock" % point)
     if not fired or exc is None:
         # the injection point was not reached (e.g. no file needed reading)
         check(after["tip"][0] == before["tip"][0] + 1,
@@ -742,18 +851,23 @@ def cases(draw, rounds_max=3, fault=False):
         # missing files still have a working path that can be named
         allpaths = sorted(set(allpaths) | {
             tm.path_of(model, f) for f in missing if f in model})
-        mode = draw(st.sampled_from(["sel", "sel", "sel", "all", "exclude"]))
+        mode = draw(st.sampled_from(["sel", "sel", "sel", "sel", "sel", "sel",
+                                     "all", "all", "exclude", "exclude",
+                                     "sel+exclude", "sel+exclude", "none"]))
         sel, exclude = None, None
-        if allpaths and mode == "sel":
+        if allpaths and mode in ("sel", "sel+exclude"):
             sel = draw(st.lists(st.sampled_from(allpaths), min_size=1,
                                 max_size=3, unique=True))
-        elif allpaths and mode == "exclude":
+        if allpaths and mode in ("exclude", "sel+exclude"):
             exclude = draw(st.lists(st.sampled_from(allpaths), min_size=1,
                                     max_size=2, unique=True))
+        if mode == "none":
+            sel = []        # "an empty list means commit no files"
         rounds.append({"edits": edits, "sel": sel, "exclude": exclude,
                        "allow_pointless": draw(st.sampled_from(
                            [True, True, True, False])),
-                       "strict": draw(st.sampled_from([False] * 5 + [True]))})
+                       "strict": draw(st.sampled_from([False] * 5 + [True])),
+                       "verbose": draw(st.sampled_from([False, False, True]))})
         # the generator cannot know what a partial commit leaves pending, so
         # later rounds are drawn against the working model only; the oracle
         # recomputes the basis from the real tree each round.
@@ -763,11 +877,14 @@ def cases(draw, rounds_max=3, fault=False):
                 if f in basis:
                     tm.apply_op(basis, ["delete", f])
     case = {"format": draw(st.sampled_from(["2a", "2a", "pack-0.92"])),
-            "base": base, "rounds": rounds}
+            "base": base, "rounds": rounds,
+            "keep_tree": draw(st.sampled_from([False, True]))}
     if fault:
         case["fault"] = {"point": draw(st.sampled_from(
-            ["transport", "transport", "transport", "message", "read"])),
-            "k": draw(st.sampled_from(list(range(40))))}
+            ["transport", "transport", "transport", "message", "read",
+             "changes"])),
+            "k": draw(st.sampled_from(list(range(40)))),
+            "outer_lock": draw(st.sampled_from([False, False, True]))}
         case["rounds"][-1]["sel"] = draw(st.sampled_from(
             [None, case["rounds"][-1]["sel"]]))
         case["rounds"][-1]["exclude"] = None
@@ -805,16 +922,26 @@ def run_merge(case, env):
         return rejected("merge-setup:conflicts")
     if len(wt.get_parent_ids()) < 2:
         return trivial()
-    # further edits on top of the merge result (mode flips, rewrites) on files
-    # that exist now
-    wt = w.wt()
-    real = snap_real(wt)
-    files = sorted(f for f, e in real.items() if e[2] == "file")
+    # further edits on top of the merge result (mode flips, rewrites, a file
+    # put back to what this branch had, an entry unversioned or renamed) on
+    # entries that exist now
+    repo = w.wt().branch.repository
+    this_tree = repo.revision_tree(b"this-1")
+    this_snap = snap_real(this_tree)
+    this_paths = paths_of(this_snap)
+    done = []
     for i, (kind, pick) in enumerate(case["post"]):
-        if not files:
-            break
-        f = files[pick % len(files)]
-        ap = os.path.join(w.path, paths_of(real)[f])
+        wt = w.wt()
+        real = snap_real(wt)
+        rp = paths_of(real)
+        files = sorted(f for f, e in real.items() if e[2] == "file")
+        links = sorted(f for f, e in real.items() if e[2] == "symlink")
+        pool = links if kind == "retarget" else (
+            files + links if kind in ("unversion", "rename") else files)
+        if not pool:
+            continue
+        f = pool[pick % len(pool)]
+        ap = os.path.join(w.path, rp[f])
         if kind == "chmod":
             os.chmod(ap, 0o644 if os.stat(ap).st_mode & 0o100 else 0o755)
         elif kind == "rewrite-same":
@@ -822,24 +949,88 @@ def run_merge(case, env):
                 data = fh.read()
             with open(ap, "wb") as fh:
                 fh.write(data)
+        elif kind == "revert":
+            # content and mode of this branch's own last revision: the entry
+            # no longer differs from the basis although a parent changed it
+            if f not in this_snap or this_snap[f][2] != "file":
+                continue
+            with this_tree.lock_read():
+                data = this_tree.get_file_text(this_paths[f])
+            with open(ap, "wb") as fh:
+                fh.write(data)
+            os.chmod(ap, 0o755 if this_snap[f][4] else 0o644)
+        elif kind == "unversion":
+            # (for an entry the merge brought in: "the add was reverted")
+            wt.unversion([rp[f]])
+        elif kind == "rename":
+            new_name = rp[f] + ".r%d" % i
+            if os.path.lexists(os.path.join(w.path, new_name)):
+                continue
+            wt.rename_one(rp[f], new_name)
+        elif kind == "retarget":
+            os.unlink(ap)
+            os.symlink("post-merge-%d" % i, ap)
         else:
             with open(ap, "ab") as fh:
                 fh.write(b"post-merge %d\n" % i)
+        done.append(kind)
     bz.age_files(w.path)
+    want_parents = [w.wt().branch.last_revision(), b"other-1"]
+    if case.get("ghost"):
+        # a merged revision that is not in the repository
+        w.wt().add_parent_tree_id(b"ghost-rev", allow_leftmost_as_ghost=False)
+        want_parents.append(b"ghost-rev")
     work = snap_real(w.wt())
-    tip = w.wt().branch.last_revision()
+    # documented refusals of a merge commit: nothing may change
+    probe = case.get("probe")
+    if probe:
+        from breezy.bzr import conflicts as _c
+        from breezy.commit import CannotCommitSelectedFileMerge
+        some = sorted(p for p in paths_of(work).values() if p)[:1] or ["x"]
+        before = w.state()
+        parents_before = w.wt().get_parent_ids()
+        kw = {}
+        if probe == "partial":
+            kw["specific_files"] = some
+        elif probe == "exclude":
+            kw["exclude"] = some
+        else:
+            w.wt().set_conflicts([_c.TextConflict(some[0])])
+            before = w.state()
+        try:
+            w.wt().commit("refused", rev_id=b"refused-1", timestamp=bz.T0 + 7,
+                          timezone=0, committer=bz.COMMITTER, **kw)
+            check(False, "C01/merge-commit-with-%s-accepted" % probe, [some])
+        except (CannotCommitSelectedFileMerge, errors.ConflictsInTree) as e:
+            check(isinstance(e, errors.ConflictsInTree) ==
+                  (probe == "conflicts"),
+                  "C01/merge-commit-refused-for-another-reason",
+                  [probe, type(e).__name__])
+        check(w.state() == before and
+              w.wt().get_parent_ids() == parents_before,
+              "C01/refused-merge-commit-changed-state",
+              [probe, before, w.state()])
+        if probe == "conflicts":
+            w.wt().set_conflicts([])
     rid = w.wt().commit("merge", rev_id=b"merge-1", timestamp=bz.T0 + 7,
                         timezone=0, committer=bz.COMMITTER)
     repo = w.wt().branch.repository
     new = snap_real(repo.revision_tree(rid))
     check(new == work, "C01/merge-commit-differs-from-working-tree",
-          {f: [work.get(f), new.get(f)] for f in set(new) | set(work)
-           if new.get(f) != work.get(f)})
-    check(list(repo.get_revision(rid).parent_ids) == [tip, b"other-1"],
-          "C01/merge-commit-parents-wrong", None)
+          [done, {f: [work.get(f), new.get(f)] for f in set(new) | set(work)
+                  if new.get(f) != work.get(f)}])
+    check(list(repo.get_revision(rid).parent_ids) == want_parents,
+          "C01/merge-commit-parents-wrong",
+          [repo.get_revision(rid).parent_ids, want_parents])
     check(not w.pending(), "C01/tree-reports-changes-after-merge-commit",
           w.pending())
-    return ok("merge-commit" + ("+post-merge-edits" if case["post"] else ""))
+    check(w.wt().get_parent_ids() == [rid],
+          "C01/tree-parents-wrong-after-merge-commit", w.wt().get_parent_ids())
+    extra = sorted(set(done) & {"revert", "unversion", "rename", "retarget"})
+    return ok("merge-commit" + ("+post-merge-edits" if done else "") +
+              "".join("+" + x for x in extra) +
+              ("+ghost-parent" if case.get("ghost") else "") +
+              ("+refusal-probe" if probe else ""))
 
 
 @st.composite
@@ -847,13 +1038,14 @@ def merge_cases(draw):
     ids = tm.IdSource()
     model = tm.new_model()
     base = tm.draw_ops(draw, model, ids, n_min=3, n_max=8,
-                       kinds=["add", "add", "add", "add_dir"], symlinks=False,
+                       kinds=["add", "add", "add", "add_dir"], symlinks=True,
                        execs=True, odd_names=False)
     om = tm.clone(model)
     oids = tm.IdSource(prefix="o")
-    other_edits = tm.draw_ops(draw, om, oids, n_min=1, n_max=4, symlinks=False,
+    other_edits = tm.draw_ops(draw, om, oids, n_min=1, n_max=4, symlinks=True,
                               execs=True, odd_names=False,
-                              kinds=["modify", "modify", "chmod", "chmod", "add"])
+                              kinds=["modify", "modify", "chmod", "chmod", "add",
+                                     "add", "retarget", "rename"])
     tmodel = tm.clone(model)
     tids = tm.IdSource(prefix="t")
     # this side edits other files only (no conflicts): draw, then drop edits of
@@ -872,11 +1064,15 @@ def merge_cases(draw):
             continue
         this_edits.append(op)
     post = draw(st.lists(st.tuples(
-        st.sampled_from(["chmod", "chmod", "rewrite-same", "append"]),
+        st.sampled_from(["chmod", "chmod", "rewrite-same", "append", "revert",
+                         "revert", "unversion", "rename", "retarget"]),
         st.sampled_from(list(range(6)))).map(list), max_size=3))
     return {"format": draw(st.sampled_from(["2a", "2a", "pack-0.92"])),
             "base": base, "other_edits": other_edits, "this_edits": this_edits,
-            "post": post}
+            "post": post,
+            "ghost": draw(st.sampled_from([False, False, False, True])),
+            "probe": draw(st.sampled_from([None, None, None, "partial",
+                                           "exclude", "conflicts"]))}
 
 
 def kinds(tier):
